@@ -233,7 +233,8 @@ def type_tables(ctx):
     S_T, S_R, E_R = 0x04, 0x02, 0x01
     for (f, P, base, sflag) in (('COTPdoReset', ['C12'], 0x1800, S_T), ('CORPdoReset', ['C13', 'C14'], 0x1400, S_R)):
         m.need(f)
-        for ty in (0, 1, 239, 240, 241, 252, 254, 255):
+        # quick tier: boundaries of the transmission-type classes; thorough tier: all 256 types
+        for ty in (range(256) if getattr(ctx, 'tier', 'quick') == 'thorough' else (0, 1, 2, 127, 128, 239, 240, 241, 251, 252, 253, 254, 255)):
             for valid in (0, 1):
                 for old_sync in (0, 1):
                     cob = (0x181 | RTR) if valid else (OFF | 0x181 | RTR)
